@@ -137,6 +137,15 @@ def cases(draw):
             s["logs"] = [f"L{tagc[0]}"]
         return s
 
+    # how the external party answers callbacks / invokes in this case: with a failure, a timeout, a stop or a cancellation
+    # the call raises, the workflow catches the error and carries on - the failed operation is completed work all the same
+    ext_oc = draw(st.sampled_from(["success", "success", "failure", "timeout", "stop", "cancel"]))
+
+    def guarded(stmt_):
+        if ext_oc == "success":
+            return [stmt_]
+        return [{"op": "try", "body": stmt_, "catch": ["CallbackError", "CallableRuntimeError", "Exception"], "handler": [log()] if draw(st.booleans()) else []}]
+
     def unit(depth=0):
         k = draw(st.sampled_from(["step", "step", "retry", "failtry", "wait", "child", "callback", "wfcb", "invoke", "batch"] if depth == 0
                                  else ["step", "step", "wait", "failtry", "callback"]))
@@ -168,11 +177,11 @@ def cases(draw):
             for _ in range(draw(st.integers(0, 3))):
                 between.append(draw(st.sampled_from(["log", "log", "step", "wait"])))
             between = [log() if b == "log" else step() if b == "step" else {"op": "wait", "secs": 1} for b in between]
-            return [{"op": "callback", "between": between}]
+            return guarded({"op": "callback", "between": between})
         if k == "wfcb":
-            return [{"op": "wfcb"}]
+            return guarded({"op": "wfcb"})
         if k == "invoke":
-            return [{"op": "invoke", "fn": "f", "payload": 1}]
+            return guarded({"op": "invoke", "fn": "f", "payload": 1})
         brs = [[step(False)], [step(False)]]
         return [{"op": "parallel", "branches": brs, "cfg": {"completion": {"min": None, "tol": 2, "pct": None}}}]
 
@@ -191,7 +200,7 @@ def cases(draw):
     crashes = draw(st.lists(st.builds(lambda inv, at, n: {"inv": inv, "at": at, "n": n}, st.integers(0, 5), st.sampled_from(["api_before", "api_after", "user"]), st.integers(0, 5)), max_size=1))
     # the capturing logger is installed with set_logger() from user code, or it IS the default logger the root context
     # is built with (before the handler runs)
-    return {"prog": {"body": body}, "limits": {"checkpoint": 300}, "keep_backend": ["prune_children"], "caplog": draw(st.sampled_from([True, True, "default"])), "ext_default": {"after_pending": draw(st.sampled_from([0, 0, 1, 2]))}, "backend": be, "plan": {"crashes": crashes}, "sched": [{"mode": "seq"}], "line": []}
+    return {"prog": {"body": body}, "limits": {"checkpoint": 300}, "keep_backend": ["prune_children"], "caplog": draw(st.sampled_from([True, True, "default"])), "ext_default": {"after_pending": draw(st.sampled_from([0, 0, 1, 2])), **({"outcome": ext_oc} if ext_oc != "success" else {})}, "backend": be, "plan": {"crashes": crashes}, "sched": [{"mode": "seq"}], "line": []}
 
 
 def nontrivial(run, case):
